@@ -217,29 +217,32 @@ def run(rep):
         def key_star(pred, label):
             ss = []
             E.walk(mt, lambda x: ss.append(x) if x[0] == 'star' and E.find_templates(x[3], pred) else None)
-            ss = [s for s in ss if s[1] != M]
+            ss = [s for s in ss if not (s[1] == M and E.find_templates(s[3], lambda y: y is gt))]
             if len(ss) < 1:
                 rep.bad('C04.R5', f'{label}-repetition', where, f'no repetition produces {label}', undecided=True)
                 return None
             s = ss[0]
-            ok = s[1] == KEYS and not s[4] and not s[5]
+            ok = s[1] in (KEYS, M) and not s[4] and not s[5]
             rep.check(ok, 'C04.R5.all-groups', f'{label}-source', where, f'{label} are generated from {E.show(s[1], maxdepth=4)} with {len(s[4])} filter(s); expected every key of the group map', ok_detail='for group_no in map.keys()')
             return s
         fs = key_star(lambda t: E.tmpl_text(t).startswith('pub #') and "&'a #" in E.tmpl_text(t), 'BindGroups-fields')
+        def key_of(s_):
+            e_ = ('elem', s_[2], s_[1])
+            return ('tf', e_, 0) if s_[1] == M else e_
         if fs is not None:
-            k = ('elem', fs[2], fs[1])
+            k = key_of(fs)
             t = E.find_templates(fs[3], lambda t: True)[0]
             hv = [ident_fmt(x) for x in E.holes(t).values()]
             rep.check(hv == [('bind_group', k), ('BindGroup', k)], 'C04.R5.names', 'BindGroups-field', where, f'BindGroups field is {hv}', ok_detail='pub bind_group<K>: &BindGroup<K>')
         ps = key_star(lambda t: ': & bind_groups :: #' in E.tmpl_text(t), 'set_bind_groups-parameters')
         if ps is not None:
-            k = ('elem', ps[2], ps[1])
+            k = key_of(ps)
             t = E.find_templates(ps[3], lambda t: True)[0]
             hv = [ident_fmt(x) for x in E.holes(t).values()]
             rep.check(hv == [('bind_group', k), ('BindGroup', k)], 'C04.R5.names', 'set_bind_groups-parameter', where, f'parameter is {hv}', ok_detail='bind_group<K>: &bind_groups::BindGroup<K>')
         ss = key_star(lambda t: E.tmpl_text(t).endswith('. set ( pass ) ;'), 'set-calls')
         if ss is not None:
-            k = ('elem', ss[2], ss[1])
+            k = key_of(ss)
             t = E.find_templates(ss[3], lambda t: True)[0]
             hv = [ident_fmt(x) for x in E.holes(t).values()]
             rep.check(hv == [('bind_group', k)] and E.tmpl_text(t) == '#' + list(E.holes(t))[0] + ' . set ( pass ) ;', 'C04.R5.names', 'set-call', where, f'set call is `{E.tmpl_text(t)}` {hv}', ok_detail='bind_group<K>.set(pass);')
